@@ -61,8 +61,8 @@ class MannWhitneyUTest(BaseStatisticalTest):
         test = mannwhitneyu(  # pylint: disable=unexpected-keyword-arg
             x=X_ref,
             y=X,
-            alternative=kwargs.get("alternative", "two-sided"),
-            nan_policy=kwargs.get("nan_policy", "raise"),
+            alternative=kwargs.pop("alternative", "two-sided"),
+            nan_policy=kwargs.pop("nan_policy", "raise"),
             **kwargs,
         )
         test = StatisticalResult(
